@@ -132,7 +132,7 @@ def sugar(rnd, d: int = 0, allow_bool: bool = True, multiline: bool = False) -> 
             inner = sugar(rnd, d + 1, allow_bool=False)
             it, tt = inner.text, inner.trans
         else:
-            it = tt = rnd.choice(["x", "'a' + b", "f(1)", "None or 'W'", "a.b", "n[0]", "'HOME'", '"EDITOR"', "'A' 'B'", "f'{a}_DIR'", "1", "b'x'", "r'\\d'", "(k)", "'P' if c else q", "u'U'"])
+            it = tt = rnd.choice(["x", "'a' + b", "f(1)", "None or 'W'", "a.b", "n[0]", "'HOME'", '"EDITOR"', "'A' 'B'", "f'{a}_DIR'", "1", "b'x'", "r'\\d'", "(k)", "'P' if c else q", "u'U'", "y := 'HOME'", "(a, b)", "(*a, b)", "lambda: k", "a if b else c"])
         sp = rnd.choice(["", "", " "])
         return Sugar("${" + sp + it + sp + "}", f"__xonsh__.env[str({tt})]", "atom", "Subscript", "${expr}")
     if k == "subproc":
@@ -210,7 +210,10 @@ def sugar(rnd, d: int = 0, allow_bool: bool = True, multiline: bool = False) -> 
     n = rnd.randint(2, 3)
     ops = [operand() for _ in range(n)]
     sp = rnd.choice([" ", " ", "  "])
-    return Sugar(f"{sp}{op_x}{sp}".join(o[0] for o in ops), f" {op_p} ".join(o[1] for o in ops), "bool", "BoolOp", op_x)
+    # (both spellings of the operator may occur in one chain: it is still one flat BoolOp)
+    seps = [op_x if i == 0 or rnd.random() < 0.7 else op_p for i in range(n - 1)]
+    text = ops[0][0] + "".join(f"{sp}{s_}{sp}" + o[0] for s_, o in zip(seps, ops[1:]))
+    return Sugar(text, f" {op_p} ".join(o[1] for o in ops), "bool", "BoolOp", op_x)
 
 
 def expand_columns(text: str, start_col: int) -> str:
@@ -301,7 +304,7 @@ def gen_word(rnd, d):
                 continue
             pieces.append(("env", f"${name}", name))
         elif r < 0.88:
-            e = rnd.choice(["x", "a + b", "f(1)", "[1, 2]", "'s'", "x for x in y", "a, b", "lambda: 1", "d['k']", 'f"{x}"', "f'{a}-{b!r:>4}'", "{'k': v}['k']", "{1, 2}", "f'{x:{w}}' + y", "[f'{i}' for i in z]", "(a, [b, {c}])", "g(h(1)[2])"])
+            e = rnd.choice(["x", "a + b", "f(1)", "[1, 2]", "'s'", "x for x in y", "a, b", "lambda: 1", "d['k']", 'f"{x}"', "f'{a}-{b!r:>4}'", "{'k': v}['k']", "{1, 2}", "f'{x:{w}}' + y", "[f'{i}' for i in z]", "(a, [b, {c}])", "g(h(1)[2])", '3 * "ab" + "c"', 'fmt % "a" + "b"', '"a" + "b"', '"x" "y"', "'p' + q + 'r' + 's'", '"a" * 2 + "b" * 3'])
             pieces.append(("pyexpr", f"@({e})", e))
         elif prev and prev[0] == "plain" and prev[1].endswith("@"):
             continue  # '@' directly followed by '(' or '$' is outside the property's alphabet
